@@ -364,7 +364,7 @@ func visitAST(node *sitter.Node, sourceCode []byte, graph *CodeGraph, currentCon
 		if conditionNode != nil {
 			forNode.Condition = &model.Expr{Node: *conditionNode, NodeString: conditionNode.Content(sourceCode)}
 		}
-		incrementNode := node.ChildByFieldName("increment")
+		incrementNode := node.ChildByFieldName("update")
 		if incrementNode != nil {
 			forNode.Increment = &model.Expr{Node: *incrementNode, NodeString: incrementNode.Content(sourceCode)}
 		}
